@@ -1,8 +1,8 @@
 package harness
 
 import (
-	"runtime"
 	"fmt"
+	"runtime"
 	"strings"
 	"time"
 
@@ -66,8 +66,11 @@ func c11line(t *simrt.Tape, tags []string) string {
 	// mostly valid: lines with many numbers would otherwise almost never be well formed, and a well-formed
 	// response arriving at an unexpected moment is hostile too
 	nv := func() string {
-		if t.Choose(6) == 0 {
+		switch t.Choose(6) {
+		case 0:
 			return n()
+		case 1: // around the top of number64 (an unsigned 63-bit integer)
+			return []string{"9223372036854775807", "9223372036854775808", "18446744073709551615"}[t.Choose(3)]
 		}
 		return fmt.Sprint(t.Choose(50))
 	}
@@ -101,7 +104,7 @@ func c11line(t *simrt.Tape, tags []string) string {
 			case 2:
 				items = append(items, `INTERNALDATE "17-Jul-1996 02:44:25 -0700"`)
 			case 3:
-				items = append(items, "RFC822.SIZE "+n())
+				items = append(items, "RFC822.SIZE "+nv())
 			case 4:
 				items = append(items, "ENVELOPE "+c11envelope(t))
 			case 5:
@@ -538,7 +541,14 @@ func runC11(r *R) {
 				if msg.SeqNum == 0 {
 					r.Violate("invalid-data-delivered", "unilateral FETCH", "the unilateral-data handler received FETCH data for sequence number 0")
 				}
-				for msg.Next() != nil {
+				for {
+					item := msg.Next()
+					if item == nil {
+						break
+					}
+					if sz, ok := item.(imapclient.FetchItemDataRFC822Size); ok && sz.Size < 0 {
+						r.Violate("invalid-data-delivered", "unilateral FETCH", "the unilateral-data handler received RFC822.SIZE %d (a number64 at or above 2^63 was accepted)", sz.Size)
+					}
 				}
 			},
 		}})
@@ -641,6 +651,9 @@ func c11Issue(c *imapclient.Client, kind string) c11pending {
 				if uidKind && m.UID == 0 && err == nil {
 					pr = append(pr, "UID FETCH result with UID 0 delivered")
 				}
+				if m.RFC822Size < 0 {
+					pr = append(pr, fmt.Sprintf("FETCH RFC822.SIZE %d delivered (a number64 at or above 2^63 was accepted)", m.RFC822Size))
+				}
 				walkBody(m.BodyStructure)
 				// the property's own bound: nesting beyond the wire decoder's cap (1000 levels) is never delivered
 				if d := bodyDepth(m.BodyStructure); d > 1000 {
@@ -689,10 +702,14 @@ func c11Issue(c *imapclient.Client, kind string) c11pending {
 		x := c.Status("box1", &imap.StatusOptions{NumMessages: true, UIDNext: true})
 		return c11pending{"STATUS", func() (error, []string) {
 			d, err := x.Wait()
+			var pr []string
 			if d != nil && d.NumMessages != nil {
 				_ = *d.NumMessages
 			}
-			return err, nil
+			if d != nil && d.Size != nil && *d.Size < 0 {
+				pr = append(pr, fmt.Sprintf("STATUS SIZE %d delivered (a number64 at or above 2^63 was accepted)", *d.Size))
+			}
+			return err, pr
 		}}
 	case "search", "esearch":
 		var x *imapclient.SearchCommand
@@ -741,12 +758,19 @@ func c11Issue(c *imapclient.Client, kind string) c11pending {
 		x := c.GetQuota("root")
 		return c11pending{"GETQUOTA", func() (error, []string) {
 			d, err := x.Wait()
+			var pr []string
 			if d != nil {
-				for k, v := range d.Resources {
-					_, _ = k, v.Usage
+				neg := false
+				for _, v := range d.Resources {
+					if v.Usage < 0 || v.Limit < 0 {
+						neg = true
+					}
+				}
+				if neg {
+					pr = append(pr, "QUOTA resource with a negative usage or limit delivered (a number64 at or above 2^63 was accepted)")
 				}
 			}
-			return err, nil
+			return err, pr
 		}}
 	case "quotaroot":
 		x := c.GetQuotaRoot("INBOX")
